@@ -46,7 +46,10 @@ RULE = ("Histories of 5-40 operations over three dataset kinds (two-channel dict
         "set/change/delete of every [calculation] key, [imaging] pixel size/frame rate, [setup] "
         "flow rate/channel width/chip region/medium/temperature on the root, with generic and "
         "boundary values (0.0, -0.0, smallest/largest valid); set/replace of temporary features "
-        "(scalar, non-scalar, ml_score) on root, child or grandchild; manual-filter changes; "
+        "(scalar, non-scalar, ml_score) on root, child or grandchild; in-place edits of the array "
+        "the caller handed to set_temporary_feature (`mutt`: the data of a temporary feature "
+        "change without set_temporary_feature being called again; whole array or a few events); "
+        "manual-filter changes; "
         "rejuvenate; reads of 30 features, `in`, `ds.features` on any level. Oracle: a hierarchy "
         "freshly built from the current state; for emodulus additionally get_emodulus of the "
         "inputs selected by the documented precedence (by key presence) and the recorded "
@@ -56,14 +59,23 @@ RULE = ("Histories of 5-40 operations over three dataset kinds (two-channel dict
         "medium 'other'), each read on the root and through a child. Systematic cache-edit-read "
         "triples per hierarchy level, incl. a temporary feature set for the FIRST time after "
         "everything was cached (quick: all of those and all replacements via child levels for one "
-        "world + 4 sampled; thorough: all). Per root read / `in`: observed nesting depth of "
+        "world + all in-place edits of one kind on every level with the reads restricted to the "
+        "direct dependants and cheap controls, + 4 sampled; thorough: all, all reads). One "
+        "long measurement per run (dict, 2**17+2**12 .. 2**18+2**12 events, size seeded, scalar "
+        "features and cheap recipes only): 12 (thorough 40) changes of temporary features — "
+        "replacement through any level or in-place edit — that differ from the current data at "
+        "1-3 randomly placed events, dependants read before and after on some level. "
+        "Per root read / `in`: observed nesting depth of "
         "is_available and __getitem__ vs the model's rank bound (`fuel`), and for emodulus / "
         "crosstalk reads the model's closed-form availability gap vs 'available but raises' "
         "(`gap`). The random-history phase is bounded by work units (judged operations: quick "
-        "1500, thorough 16000), not by the clock; wall-clock caps are safety limits only.")
+        "1300, thorough 16000), not by the clock; wall-clock caps are safety limits only.")
 TRUSTED_BASE = [
     "modelled, not verified: md5 and util.obj2bytes (the hash is modelled as the structured "
-    "list of what is fed to md5; byte-level concatenation collisions are outside the model)",
+    "list of what is fed to md5; byte-level concatenation collisions are outside the model); "
+    "that the bytes cover EVERY event of a feature column and are taken from the CURRENT data "
+    "is correspondence: changes at single randomly placed events of a long measurement and "
+    "in-place edits of the caller's array must show in every dependent feature",
     "the source walker harness/c06_ast.py (path-insensitive `ast` walk over a compute method / "
     "requirement function and the module-level helpers it passes the dataset to; anything it does "
     "not understand marks the result incomplete): it supplies the read sets of the compute "
@@ -127,7 +139,7 @@ class Budget:
 #: only to the open-ended parts — the sampled remainder of the triples and the random histories
 #: beyond a guaranteed minimum number — never to the systematic parts (combinations, corpus,
 #: stratified triples)
-HIST_UNITS = (1500, 16000)
+HIST_UNITS = (1300, 16000)
 HIST_MIN = (40, 300)
 WALL_CAP_TRIPLES = (300, 500)
 WALL_CAP_HIST = (330, 690)
@@ -177,10 +189,9 @@ EMOD_KEYS = ["emodulus lut", "emodulus medium", "emodulus temperature", "emodulu
 
 # ----------------------------------------------------------------------------------------
 # data
-def base_features(kind, variant):
+def base_features(kind, variant, n=NEV):
     """innate feature dict of dataset `kind`; `variant` perturbs the numbers"""
     rs = np.random.RandomState(1000 + variant)
-    n = NEV
     d = {
         "area_cvx": np.linspace(260, 900, n) + rs.rand(n),
         "area_msd": np.linspace(250, 880, n) + rs.rand(n),
@@ -214,9 +225,11 @@ def base_features(kind, variant):
 class World:
     """one dataset kind: how to open a fresh dataset"""
 
-    def __init__(self, ctx, kind, variant):
+    def __init__(self, ctx, kind, variant, nev=None):
         self.kind, self.variant = kind, variant
-        self.feats = base_features(kind, variant)
+        # kind "big": a long measurement (dict, scalar features only; `nev` events)
+        self.nev = int(nev) if (kind == "big" and nev) else NEV
+        self.feats = base_features(kind, variant, self.nev)
         self.path = None
         if kind == "h5":
             self.path = ctx.workdir / f"w_{variant}.rtdc"
@@ -248,6 +261,22 @@ class World:
         return ds
 
 
+    def temp_data(self, name, k, n):
+        """k-th version of the data of temporary feature `name` for a level with `n` events.
+        In a long measurement the versions k > 0 differ from version 0 only at FEW, randomly
+        placed events (relabelling a handful of events)"""
+        if self.kind != "big" or k == 0:
+            return temp_data(name, k, n)
+        return sparse_edit(name, temp_data(name, 0, n), (self.nev, 1, k))
+
+    def mut_data(self, name, k, cur):
+        """what the caller writes IN PLACE into the array it handed to
+        set_temporary_feature: odd k — a few randomly placed events; even k — everything"""
+        if self.kind == "big" or k % 2:
+            return sparse_edit(name, cur.copy(), (self.nev, 2, k))
+        return temp_data(name, k + 3, len(cur))
+
+
 def temp_data(name, k, n=NEV):
     """k-th version of the data of temporary feature `name` for a level with `n` events"""
     if name == "tmpn":
@@ -256,6 +285,17 @@ def temp_data(name, k, n=NEV):
         a = (np.arange(n) * (k + 2) * (3 if name.endswith("abc") else 5) + k) % 11
         return a / 10.0
     return np.linspace(1, 2, n) * (k + 1)
+
+
+def sparse_edit(name, arr, seed):
+    """`arr` changed at 1, 2 or 3 randomly placed events (in place; returns `arr`)"""
+    rs = np.random.RandomState([TEMP_NAMES.index(name)] + [int(x) % 2**31 for x in seed])
+    for i in rs.randint(0, len(arr), (1, 1, 1, 2, 1, 3)[seed[-1] % 6]):
+        if name.startswith("ml_score"):      # decisive for the class of that event
+            arr[i] = 0.0 if arr[i] >= 0.5 else 1.0
+        else:
+            arr[i] = arr[i] + 0.5
+    return arr
 
 
 # ----------------------------------------------------------------------------------------
@@ -565,7 +605,7 @@ def norm(op):
 
 
 def is_state_op(op):
-    return op[0] in ("setc", "delc", "sett", "filt")
+    return op[0] in ("setc", "delc", "sett", "mutt", "filt")
 
 
 class Hier:
@@ -577,6 +617,7 @@ class Hier:
         self.world, self.reg = world, reg
         self.levels = [world.open()]
         self.dirty = [False] * NLEV
+        self.handed = {}         # feature -> the array the caller gave to set_temporary_feature
 
     @property
     def root(self):
@@ -613,8 +654,24 @@ class Hier:
         elif op[0] == "sett":
             lev = op[3]
             lv = self.ensure(lev)
-            self.reg.ft.set_temporary_feature(lv, op[1], temp_data(op[1], op[2], len(lv)))
+            if self.world.kind == "big" and op[2] > 0 and op[1] in self.handed:
+                # a few events of the column as this level shows it are relabelled (plain
+                # data of the dataset: no ancillary feature is read)
+                arr = sparse_edit(op[1], np.array(lv[op[1]], dtype=float),
+                                  (self.world.nev, 1, op[2]))
+            else:
+                arr = self.world.temp_data(op[1], op[2], len(lv))
+            self.reg.ft.set_temporary_feature(lv, op[1], arr)
+            self.handed[op[1]] = arr         # the caller keeps its (writeable) array
             self.mark(lev + 1)
+        elif op[0] == "mutt":
+            # the caller edits the array it handed over IN PLACE; set_temporary_feature is
+            # not called again (the root stores a view of that array: its data change; an
+            # array handed over through a child was copied: nothing changes)
+            arr = self.handed.get(op[1])
+            if arr is not None:
+                arr[...] = self.world.mut_data(op[1], op[2], arr)
+                self.mark(1)
         elif op[0] == "filt":
             lev = op[1]
             lv = self.ensure(lev)
@@ -781,7 +838,9 @@ class Runner:
                                                  self.tok(op[1], op[2], v)))
         elif op[0] == "delc":
             self.lines.append("delc %s:%s" % (op[1], op[2].replace(" ", "~")))
-        elif op[0] == "sett":       # the data as they arrive at the root
+        elif op[0] == "sett" or (op[0] == "mutt" and op[1] in self.h.handed):
+            # the data as they arrive at the root (for the model an in-place edit of the
+            # caller's array is a change of the temporary feature's data like a replacement)
             self.lines.append("sett %s %s" % (op[1], self.dtok(np.asarray(self.ds[op[1]]))))
         else:
             return
@@ -1068,7 +1127,8 @@ def gen_history(rng, world):
     n = max(n, len(ops) + 3)
     while len(ops) < n:
         # the idiom the property is about: cache, edit, read again (same level)
-        if ops and ops[-1][0] in ("setc", "delc", "sett", "filt") and rng.random() < 0.4:
+        if ops and ops[-1][0] in ("setc", "delc", "sett", "mutt", "filt") \
+                and rng.random() < 0.4:
             before = [o for o in ops if o[0] == "read"]
             if before:
                 ops.append(rng.choice(before[-6:]))
@@ -1082,7 +1142,14 @@ def gen_history(rng, world):
         elif x < 0.44:
             f = rng.choice(TEMP_NAMES)
             tver[f] = tver[f] + 1 if rng.random() < 0.7 else rng.randint(0, 2)
-            ops.append(("sett", f, tver[f], 0 if f == "tmpn" else lvl()))
+            if rng.random() < 0.35 and any(o[0] == "sett" and o[1] == f for o in ops):
+                # the data change WITHOUT set_temporary_feature being called again: the caller
+                # edits the array it handed over in place
+                ops.append(("mutt", f, tver[f]))
+            else:
+                # (in-place edits are visible when the array was handed to the root)
+                lev = 0 if f == "tmpn" else (lvl() if rng.random() < 0.7 else 0)
+                ops.append(("sett", f, tver[f], lev))
         elif x < 0.80:
             f = rng.choice(reads if rng.random() < 0.85 else general)
             ops.append(("read", f, 0 if f == "contour" else lvl()))
@@ -1170,7 +1237,14 @@ def combos_part(ctx, reg, lines, expect):
                 yield vname, bits, r.known
 
 
-def triples(world):
+#: what is read around an in-place edit in the quick tier: what depends directly on a temporary
+#: feature, the temporary features themselves and some cheap controls (the thorough tier reads
+#: everything; `plug_e` = emodulus chain costs three LUT interpolations per triple)
+TEMP_READS = ["plug_s", "plug_t", "plug_n", "ml_class", "tmpa", "tmpn", "ml_score_abc",
+              "deform", "aspect", "area_um", "time"]
+
+
+def triples(world, full=True):
     """systematic 'cache, edit, read' histories: every feature is read on level L, ONE edit is
     made (a config key set to another value or deleted on the root; a temporary feature
     replaced, or set for the first time, through level L), every feature is read on level L
@@ -1194,6 +1268,18 @@ def triples(world):
             edits.append(("delc",) + k)
         for e in edits:
             out.append((lev, e, pre + temps + reads + [e] + reads))
+        # the data of a temporary feature change without set_temporary_feature being called
+        # again (in-place edit of the array the caller handed to the root), read on level L;
+        # and the same for an array handed over through level L (copied: nothing may change)
+        troot = [("sett", f, 0, 0) for f in TEMP_NAMES]
+        mreads = reads if full else [r for r in reads if r[1] in TEMP_READS]
+        for f in TEMP_NAMES:
+            for k in (1, 2):
+                e = ("mutt", f, k)
+                out.append((lev, e, pre + troot + mreads + [e] + mreads))
+            if lev > 0 and f != "tmpn":
+                out.append((lev, ("mutt-via", f, 1), pre + temps + mreads + [("mutt", f, 1)]
+                            + mreads))
         # a temporary feature that is set for the FIRST time after everything was read (and
         # cached) without it: what depends on it must become available and readable
         for f in TEMP_NAMES:
@@ -1203,6 +1289,64 @@ def triples(world):
             others = [t for t in temps if t[1] != f]
             out.append((lev, ("first",) + e, pre + others + reads + [e] + reads))
     return out
+
+
+BIG_TEMPS = ["tmpa", "ml_score_abc", "ml_score_abd"]
+BIG_DEPS = {"tmpa": ["plug_s", "plug_t", "tmpa"], "ml_score_abc": ["ml_class", "ml_score_abc"],
+            "ml_score_abd": ["ml_class", "ml_score_abd"]}
+BIG_EDITS = (12, 40)
+
+
+def gen_big_history(rng, nedits):
+    """a long measurement (more events than any fixed sample of a feature column could cover):
+    cheap recipes only; every change of a temporary feature — replacement through any level or
+    in-place edit of the caller's array — touches a FEW randomly placed events, and what
+    depends on it is read before and after on some level"""
+    ops = [("sett", f, 0, 0) for f in BIG_TEMPS]
+    ops += [("read", f, lev) for lev in range(NLEV)
+            for f in ("plug_s", "ml_class", "deform", "aspect")]
+    ver = 0
+    for _ in range(nedits):
+        f = rng.choice(BIG_TEMPS)
+        ver += 1
+        x = rng.random()
+        if x < 0.45:
+            ops.append(("sett", f, ver, 0))
+        elif x < 0.65:
+            ops.append(("sett", f, ver, rng.choice([1, 2])))
+        elif x < 0.93:
+            ops.append(("mutt", f, ver))
+        else:
+            ops.append(("filt", rng.choice([0, 1]), rng.randrange(2**17)))
+        lev = rng.choice([0, 0, 1, 2])
+        ops += [("read", r, lev) for r in BIG_DEPS[f][:2]]
+        if rng.random() < 0.3:
+            ops.append(("read", rng.choice(["plug_t", "deform", "aspect", "area_ratio", "index",
+                                            "time"]), rng.choice([0, 1, 2])))
+    return ops
+
+
+def big_part(ctx, reg, seen_classes):
+    """one long measurement per run (> 2**17 events, size seeded)"""
+    nev = 2**17 + 2**12 + ctx.rng.randrange(2**17)
+    world = World(ctx, "big", ctx.rng.randrange(4), nev=nev)
+    ops = gen_big_history(ctx.rng, BIG_EDITS[ctx.thorough])
+    r = run_history(ctx, world, reg, ops, emit=False, record=False, share_fresh=True)
+    ctx.case(("big", nev, world.variant, tuple(ops)), nontrivial=True)
+    ctx.stat("big_events", nev)
+    for cls in sorted({c for c, _ in r.failures}):
+        what = [x for c, x in r.failures if c == cls][0]
+        key = (cls, what.split("'")[1] if "'" in what else "")
+        if key in seen_classes or len(seen_classes) >= 12:
+            continue
+        small = shrink(ctx, world, reg, ops, cls)
+        r2 = run_history(ctx, world, reg, small, emit=False, record=False)
+        w2 = [x for c, x in r2.failures if c == cls]
+        seen_classes[key] = (
+            (w2[0] if w2 else what) + f" — dataset with {nev} events, minimal history of "
+            f"{len(small)} operations",
+            {"part": "big", "kind": "big", "variant": world.variant, "nev": nev,
+             "class": cls, "ops": fmt_ops(small)})
 
 
 def run(ctx):
@@ -1250,25 +1394,30 @@ def run(ctx):
                                    "ops": fmt_ops(ops)})
                     corpus_failed.add(r.failures[0][0] if fid != "F62" else "avail")
 
+            # a long measurement: sparse changes of temporary features
+            big_part(ctx, reg, seen_classes)
+            ctx.stat("units_big", bud.units)
+
             # systematic cache-edit-read triples on every hierarchy level (a seeded sample in
             # the quick tier, all of them in the thorough tier)
             allt = []
             for kind, variant in (("dict2", 0), ("h5", 1)):
                 w = World(ctx, kind, variant)
-                allt += [(w,) + t for t in triples(w)]
+                allt += [(w,) + t for t in triples(w, full=ctx.thorough)]
             if not ctx.thorough:
                 # every replacement of a temporary feature through a child level of one world,
                 # plus a seeded sample of the other edits
                 wpick = ctx.rng.choice(["dict2", "h5"])
+                kpick = ctx.rng.choice([1, 2])
                 strat = [t for t in allt if t[0].kind == wpick and (
                     (t[2][0] == "sett" and t[1] > 0 and t[2][1] != "tmpn")
-                    or t[2][0] == "first")]
+                    or t[2][0] == "first" or (t[2][0] == "mutt" and t[2][2] == kpick))]
                 rest = [t for t in allt if t not in strat]
                 allt = strat + ctx.rng.sample(rest, min(len(rest), ctx.n(4, 0)))
                 must = len(strat)
             else:       # the temporary-feature triples first: they always run
-                allt.sort(key=lambda t: not (t[2][0] in ("sett", "first")))
-                must = sum(1 for t in allt if t[2][0] in ("sett", "first"))
+                allt.sort(key=lambda t: not (t[2][0] in ("sett", "first", "mutt")))
+                must = sum(1 for t in allt if t[2][0] in ("sett", "first", "mutt"))
             for i, (w, lev, e, ops) in enumerate(allt):
                 if i >= must and bud.wall() > WALL_CAP_TRIPLES[ctx.thorough]:
                     ctx.note(f"C06: wall-clock cap reached after {i} of {len(allt)} triples "
@@ -1494,7 +1643,7 @@ def replay(ctx, data):
         run(ctx)
         return bool(ctx.violations)
     with Registered() as reg:
-        world = World(ctx, rp.get("kind", "dict2"), rp.get("variant", 0))
+        world = World(ctx, rp.get("kind", "dict2"), rp.get("variant", 0), nev=rp.get("nev"))
         r = run_history(ctx, world, reg, ops, emit=False, record=False)
         for cls, what in r.failures:
             print(f"  {cls}: {what}")
